@@ -263,6 +263,12 @@ func HarnessC03_Wire() {
 	vAssert(a.WritePacket(p, sid) == nil, name+": WritePacket succeeds")
 	ba := newDuplex()
 	ba.in.data = ab.out.data
+	switch vChoice(3) {
+	case 1:
+		ba.in.chunk = 1 // the transport delivers one byte per read
+	case 2:
+		ba.in.first = 13 // the first read ends inside the message (12-byte header + 1)
+	}
 	b := NewProtocol(ba)
 	m, err := b.ReadMessage()
 	vAssert(err == nil, name+": peer reads the message")
@@ -391,9 +397,21 @@ func HarnessC03_Expect() {
 	a := NewProtocol(ab)
 	n := 2 + vChoice(2)
 	var types []MessageType
-	firstConnect := -1
+	firstConnect, firstRes := -1, -1
 	for i := 0; i < n; i++ {
-		switch vChoice(4) {
+		kind := vChoice(5)
+		if kind == 4 && firstRes >= 0 {
+			kind = 2 // one response per request: a second response to transaction 1 is rightly refused
+		}
+		switch kind {
+		case 4:
+			// the answer to the reader's own connect (the reader registers transaction 1 below)
+			p := NewConnectAppResPacket(1)
+			a.WritePacket(p, 0)
+			types = append(types, p.Type())
+			if firstRes < 0 {
+				firstRes = i
+			}
 		case 0:
 			p := NewWindowAcknowledgementSize()
 			p.AckSize = vU32()
@@ -420,7 +438,11 @@ func HarnessC03_Expect() {
 	mk := func() *Protocol {
 		d := newDuplex()
 		d.in.data = ab.out.data
-		return NewProtocol(d)
+		p := NewProtocol(d)
+		if firstRes >= 0 {
+			p.WritePacket(NewConnectAppPacket(), 0) // the reader's own connect request, transaction 1
+		}
+		return p
 	}
 	// ExpectMessage(t): the first message of type t
 	want := []MessageType{MessageTypeWindowAcknowledgementSize, MessageTypeUserControl, MessageTypeAMF0Command}[vChoice(3)]
@@ -458,7 +480,31 @@ func HarnessC03_Expect() {
 			rest++
 		}
 		vAssert(rest == n-1-firstConnect, "ExpectPacket consumed exactly the traffic up to the first match")
+		if cp != nil {
+			vAssert(string(cp.CommandName) == "connect", "the packet returned by a wait for a connect request is a connect request")
+		}
 		vReach("expect-packet")
+	}
+	// ExpectPacket(&*ConnectAppResPacket): the first connect response, connect requests before it are skipped
+	var rp *ConnectAppResPacket
+	b2 := mk()
+	_, err = b2.ExpectPacket(&rp)
+	if firstRes < 0 {
+		vAssert(err != nil, "ExpectPacket fails when no connect response arrives")
+	} else {
+		vAssert(vAnd(err == nil, rp != nil), "ExpectPacket returns the first connect response")
+		rest := 0
+		for {
+			if _, e := b2.ReadMessage(); e != nil {
+				break
+			}
+			rest++
+		}
+		vAssert(rest == n-1-firstRes, "ExpectPacket consumed exactly the traffic up to the first connect response")
+		if rp != nil {
+			vAssert(string(rp.CommandName) == "_result", "the packet returned by a wait for a connect response is a response")
+		}
+		vReach("expect-response")
 	}
 	vReach("expect")
 }
